@@ -434,6 +434,77 @@ impl<'a> ListGen<'a> {
     }
 
     // ---------------------------------------------------------------------------------------------
+    // fourth family: PARAMETERISED aliases and generic functions over them (the reference evaluator is
+    // untyped: a generic function is just a function)
+    // ---------------------------------------------------------------------------------------------
+
+    /// a list literal whose elements are all of one kind: integers, binaries, or `A[int]` records
+    fn list_lit_of(&mut self, kind: u64) -> String {
+        let n = self.r.usize(4);
+        let mut s = "Nil".to_string();
+        for _ in 0..n {
+            let e = match kind {
+                0 => self.k().to_string(),
+                1 => format!("0x0{}", self.k()),
+                _ => format!("A[{}]", self.k()),
+            };
+            s = format!("Cons[{e}, {s}]");
+        }
+        s
+    }
+
+    pub fn program_generics(&mut self) -> String {
+        let mut steps: Vec<String> = vec!["'list<'t> = Nil | Cons['t, ^]".into(), "'opt<'t> = None | Some['t]".into()];
+        // (name, shape of the call: 0 = list, 1 = [list, list], 2 = [list, default], 3 = [opt, default], 4 = [list, 'int])
+        let mut funs: Vec<(String, u8)> = vec![];
+        let nf = 1 + self.r.usize(3);
+        for _ in 0..nf {
+            let name = self.fresh("t");
+            let k = self.k();
+            let (src, shape) = match self.r.below(8) {
+                0 => ("#<'t>['list<'t>, 'list<'t>] { | =[Nil, a] => a | =[Cons[h, t], a] => [t, Cons[h, a]] ^ }".to_string(), 1),
+                1 => ("#<'t>'list<'t> { | =Cons[h, Nil] => h | =Cons[_, t] => t ^ }".to_string(), 0),
+                2 => ("#<'t>['list<'t>, 't] { | =[Nil, d] => d | =[Cons[h, _], _] => h }".to_string(), 2),
+                3 => ("#<'t>['opt<'t>, 't] { | =[Some[v], _] => v | =[None, d] => d }".to_string(), 3),
+                4 => ("#<'t>['list<'t>, 'int] { | =[Nil, a] => a | =[Cons[_, t], a] => [t, [a, 1] __integer_add__] ^ }".to_string(), 4),
+                5 => (format!("#<'t>['list<'t>, 'list<'t>] {{ | =[Cons[h, Cons[g, t]], a] => [t, Cons[g, Cons[h, a]]] ^ | =[Cons[h, Nil], a] => Cons[h, a] | =[Nil, a] => a }}"), 1),
+                6 => (format!("#<'t>['list<'t>, 'int] {{ | =[Cons[h, Nil], {k}] => [h] | =[Cons[_, t], a] => [t, [a, 1] __integer_subtract__] ^ | =[Nil, _] => [] }}"), 4),
+                _ => ("#<'t>'list<'t> { | =Nil => None | =Cons[h, _] => Some[h] }".to_string(), 0),
+            };
+            steps.push(format!("{name} = {src}"));
+            funs.push((name, shape));
+        }
+        let mut obs = vec![];
+        let no = 2 + self.r.usize(3);
+        for _ in 0..no {
+            let (name, shape) = funs[self.r.usize(funs.len())].clone();
+            let kind = self.r.below(3);
+            let l = self.list_lit_of(kind);
+            let elem = match kind {
+                0 => self.k().to_string(),
+                1 => format!("0x0{}", self.k()),
+                _ => format!("A[{}]", self.k()),
+            };
+            let call = match shape {
+                0 => format!("{l} {name}"),
+                1 => {
+                    let l2 = self.list_lit_of(kind);
+                    format!("[{l}, {l2}] {name}")
+                }
+                2 => format!("[{l}, {elem}] {name}"),
+                3 => {
+                    let o = if self.r.chance(1, 2) { format!("Some[{elem}]") } else { "None".to_string() };
+                    format!("[{o}, {elem}] {name}")
+                }
+                _ => format!("[{l}, {}] {name}", self.k()),
+            };
+            obs.push(format!("{call}{}", self.post()));
+        }
+        steps.push(format!("[{}]", obs.join(", ")));
+        steps.join(", ")
+    }
+
+    // ---------------------------------------------------------------------------------------------
     // third family: PARTIAL types as parameter types — "any tuple that has these fields"
     // ---------------------------------------------------------------------------------------------
 
